@@ -11,6 +11,7 @@ import (
 	"context"
 	"fmt"
 	"io"
+	"log/slog"
 	"math/rand"
 	"net"
 	"strconv"
@@ -67,16 +68,17 @@ var obsActs = map[string]bool{"Open": true, "MAuth": true, "MProbe": true, "MClo
 	"CRecv": true, "CSawFin": true, "CClose": true, "ServeReturn": true}
 
 type options struct {
-	seed      int64
-	timeoutMs int
-	unitMs    int
-	awaitMs   int
-	holdMs    int
-	hangMs    int
-	openHook  func(conn net.Conn, c int) service.TCPConnMetrics // extra (real Prometheus) metrics sink, may be nil
-	nkeys     int                                               // 0: seed-chosen from {1,3,100}
-	cipher    string                                            // "": seed-chosen
-	ownWaits  bool
+	seed       int64
+	timeoutMs  int
+	unitMs     int
+	awaitMs    int
+	holdMs     int
+	hangMs     int
+	openHook   func(conn net.Conn, c int) service.TCPConnMetrics // extra (real Prometheus) metrics sink, may be nil
+	nkeys      int                                               // 0: seed-chosen from {1,3,100}
+	cipher     string                                            // "": seed-chosen
+	ownWaits   bool
+	debugEvery int
 }
 
 type snap struct {
@@ -169,6 +171,9 @@ type caseRec struct {
 	Stalls     []string     `json:"stalls"`
 	Hung       bool         `json:"hung"`
 	Handled    bool         `json:"handled"`
+	WPT        int64        `json:"wpt"`
+	WPC        int64        `json:"wpc"`
+	DebugLog   bool         `json:"debuglog"`
 	Tcl        string       `json:"tcl"`
 	Crst       bool         `json:"crst"`
 	WCPL       int64        `json:"wcpl"`
@@ -268,7 +273,8 @@ func (d *mapDialer) DialStream(ctx context.Context, addr string) (transport.Stre
 		conn.(*net.TCPConn).SetWriteBuffer(smallBuf)
 	}
 	d.b.update(cc.plan.C, func(o *connObs) { o.dials++; o.dialAddrs = append(o.dialAddrs, addr) })
-	return conn.(*net.TCPConn), nil
+	c := cc.plan.C
+	return &countedConn{c: conn.(*net.TCPConn), wrote: func(n int) { d.b.update(c, func(o *connObs) { o.wirePT += int64(n) }) }}, nil
 }
 
 func makeKeys(rng *rand.Rand, n int, seed int64, force string) ([]keyInfo, *list.List) {
@@ -362,7 +368,12 @@ func runBehaviour(idx int, beh behaviour, opt options) ([]*caseRec, *behRec) {
 		rcap = 50 + 10*len(beh.Sc) // every replayed handshake must stay inside the history while the behaviour runs
 	}
 	rc := service.NewReplayCache(rcap)
-	auth := service.NewShadowsocksStreamAuthenticator(ciphers, &rc, nil, nil)
+	// every third behaviour runs with a debug-level logger (the server's -verbose)
+	var logger *slog.Logger
+	if opt.debugEvery > 0 && idx%opt.debugEvery == opt.debugEvery-1 {
+		logger = debugLogger()
+	}
+	auth := service.NewShadowsocksStreamAuthenticator(ciphers, &rc, nil, logger)
 	timeout := time.Duration(opt.timeoutMs) * time.Millisecond
 	b := newBoard()
 	dialer := &mapDialer{b: b, targets: map[string]*cconn{}}
@@ -372,6 +383,8 @@ func runBehaviour(idx int, beh behaviour, opt options) ([]*caseRec, *behRec) {
 	handler := service.NewStreamHandler(auth, timeout)
 	handler.SetTargetDialer(dialer)
 	denyHandler := service.NewStreamHandler(auth, timeout) // the repository's default (validating) dialer
+	handler.SetLogger(logger)
+	denyHandler.SetLogger(logger)
 
 	ln, err := net.ListenTCP("tcp", &net.TCPAddr{IP: net.IPv4(127, 0, 0, 1)})
 	if err != nil {
@@ -394,7 +407,15 @@ func runBehaviour(idx int, beh behaviour, opt options) ([]*caseRec, *behRec) {
 			if hasPause {
 				c.SetWriteBuffer(smallBuf)
 			}
-			return c, nil
+			rport := c.RemoteAddr().(*net.TCPAddr).Port
+			return &countedConn{c: c, wrote: func(n int) {
+				portMu.Lock()
+				id, ok := ports[rport]
+				portMu.Unlock()
+				if ok {
+					b.update(id, func(o *connObs) { o.wirePC += int64(n) })
+				}
+			}}, nil
 		}, func(ctx context.Context, conn transport.StreamConn) {
 			port := conn.RemoteAddr().(*net.TCPAddr).Port
 			c := -1
@@ -799,6 +820,9 @@ func runBehaviour(idx int, beh behaviour, opt options) ([]*caseRec, *behRec) {
 			if !b.wait(await, func() bool { return cc.tconn != nil }) {
 				continue
 			}
+			if cc.async && cc.tpaused.Load() {
+				time.Sleep(150 * time.Millisecond) // let the proxy run into the full buffers and block in its write
+			}
 			cc.trst = true
 			cc.tconn.SetLinger(0)
 			cc.tconn.Close()
@@ -813,6 +837,9 @@ func runBehaviour(idx int, beh behaviour, opt options) ([]*caseRec, *behRec) {
 		case "CRst":
 			if cc.conn == nil {
 				continue
+			}
+			if cc.async && cc.cpaused.Load() {
+				time.Sleep(150 * time.Millisecond)
 			}
 			cc.crst = true
 			cc.conn.SetLinger(0)
@@ -965,6 +992,8 @@ func runBehaviour(idx int, beh behaviour, opt options) ([]*caseRec, *behRec) {
 		r.StallKinds = append([]string{}, cc.stallKinds...)
 		r.TfinPolite = cc.tfinPolite
 		r.WCS, r.WTR, r.WTS, r.WCR = o.wireCS, o.wireTR, o.wireTS, o.wireCR
+		r.WPT, r.WPC = o.wirePT, o.wirePC
+		r.DebugLog = logger != nil
 		for _, m := range o.mlog {
 			if m.M == "Probe" {
 				r.Drain = m.Drain
